@@ -147,6 +147,20 @@ func (w *depWorld) build(c *depCase) *depBuilt {
 		b.voted[c.Height] = blk.Hash()
 	}
 
+	// a genuine first item from another voted block (which also contains this case's
+	// transaction at position 2): the item under test then comes second in the batch
+	const gHeight = 145
+	withG := has(c.Devs, "batch:after-genuine") || has(c.Devs, "hdr:first-items-header")
+	gTx := sim.BtcTx(3000, sim.BtcOut{Value: 55555, Script: sim.RefDepositScriptV0(w.keySecp, w.evm)}, sim.BtcOut{Value: 777, Script: sim.RefSystemScript(w.keySecp)})
+	gblk := sim.NewBtcBlock(gHeight, sim.DSHA([]byte("prev-g")), [][]byte{sim.CoinbaseTx(gHeight, sim.BtcOut{Value: 1, Script: sim.RefSystemScript(w.keySchn)}), gTx, txs[c.Pos]})
+	var gDep *bitcointypes.Deposit
+	if withG {
+		b.blocks[string(gblk.Header)] = gblk
+		b.voted[gHeight] = gblk.Hash()
+		gDep = &bitcointypes.Deposit{Version: 0, BlockNumber: gHeight, TxIndex: 1, NoWitnessTx: gTx, OutputIndex: 0,
+			IntermediateProof: gblk.Proof(1), EvmAddress: w.evm, RelayerPubkey: w.keySecp.Public()}
+	}
+
 	key := w.key(c.Kind)
 	dep := &bitcointypes.Deposit{
 		Version: 0, BlockNumber: c.Height, TxIndex: uint32(c.Pos), NoWitnessTx: txs[c.Pos], OutputIndex: 0,
@@ -226,7 +240,13 @@ func (w *depWorld) build(c *depCase) *depBuilt {
 			} else {
 				dep.RelayerPubkey = w.keySchn.Public()
 			}
-		case "script:other-key", "hdr:dup-height":
+		case "hdr:first-items-header":
+			// the item's height is voted with its own block's hash, but the header listed for it is
+			// the raw header of the first item's block (in which the transaction really is)
+			header = gblk.Header
+			dep.TxIndex = 2
+			dep.IntermediateProof = gblk.Proof(2)
+		case "script:other-key", "hdr:dup-height", "batch:after-genuine":
 		case "evm:other":
 			dep.EvmAddress = w.evm2
 		case "evm:19":
@@ -252,6 +272,10 @@ func (w *depWorld) build(c *depCase) *depBuilt {
 	}
 	msg.Deposits = append([]*bitcointypes.Deposit{dep}, extra...)
 	msg.BlockHeaders = []*bitcointypes.BlockHeader{{Height: headerHeight, Raw: header}}
+	if withG {
+		msg.Deposits = append([]*bitcointypes.Deposit{gDep}, msg.Deposits...)
+		msg.BlockHeaders = append([]*bitcointypes.BlockHeader{{Height: gHeight, Raw: gblk.Header}}, msg.BlockHeaders...)
+	}
 	if has(c.Devs, "hdr:dup-height") {
 		msg.BlockHeaders = append(msg.BlockHeaders, &bitcointypes.BlockHeader{Height: headerHeight, Raw: header})
 	}
@@ -416,6 +440,7 @@ var c03Devs = []string{
 	"hdr:other-block", "hdr:bitflip", "hdr:79", "hdr:81", "hdr:unvoted-height", "hdr:voted-other-hash", "hdr:missing-for-height", "hdr:dup-height",
 	"out:wrong", "out:range", "ver:2", "ver:swap", "key:unregistered", "key:other-registered", "script:other-key", "key:nil",
 	"evm:other", "evm:19", "tx:size64", "tx:oversize", "tx:trailing-byte", "dup:in-batch", "nil:deposit", "sender:other",
+	"batch:after-genuine", "hdr:first-items-header",
 }
 
 func c03Cases(thorough bool) []*depCase {
@@ -479,7 +504,7 @@ func c03Cases(thorough bool) []*depCase {
 
 func runC03(r *mc.Run) {
 	cases := c03Cases(r.Thorough())
-	r.Rule = "single batch: full product of genuine cores (key kind/version x height {mature, boundary, immature} x tx position incl. coinbase x value x tax params) + every single deviation and every pair of deviations (35 deviation kinds: claimed index, proof, header, output, version, key, address, size, batch shape) on a reduced core, each delivered to the real MsgNewDeposits handler; oracle evaluates the statement's conditions on the accepted message against the reference Bitcoin world (ground-truth coinbase position, independent merkle/script builders) and checks receipts amount+tax==value, tax formula; histories: depth-3 sequences of batches for at-most-once"
+	r.Rule = "single batch: full product of genuine cores (key kind/version x height {mature, boundary, immature} x tx position incl. coinbase x value x tax params) + every single deviation and every pair of deviations (37 deviation kinds: claimed index, proof, header, output, version, key, address, size, batch shape, the item placed second after a genuine item of another block, the first item's raw header listed under the item's own height) on a reduced core, each delivered to the real MsgNewDeposits handler; oracle evaluates the statement's conditions on the accepted message against the reference Bitcoin world (ground-truth coinbase position, independent merkle/script builders) and checks receipts amount+tax==value, tax formula; histories: depth-3 sequences of batches for at-most-once"
 	r.Assumptions = []string{"voted block hashes are injected directly into the BlockHashes collection (NewBlockHashes itself is covered by C06/C01)", "SHA-256, secp256k1 trusted", "only-if direction: rejection of a well-formed deposit is not a violation"}
 	r.States.Store(int64(len(cases)))
 	var mu sync.Mutex
